@@ -8,6 +8,9 @@ TGT=${2:-$REPO/target}
 cd "$REPO" || exit 2
 export CARGO_NET_OFFLINE=true CARGO_TARGET_DIR="$TGT"
 OUT=$(mktemp)
+# tests bind fixed TCP ports (8000..), so concurrent runs in one sandbox must be serialised
+exec 9>/tmp/polytune-baseline.lock
+flock 9
 cargo nextest run --workspace --no-fail-fast --tool-config-file pb:/w/lib/nextest.toml --profile pb --test-threads 8 --offline >"$OUT" 2>&1
 J="$TGT/nextest/pb/junit.xml"
 python3 - "$J" "$OUT" <<'PY'
